@@ -425,6 +425,16 @@ pub fn run_scan(opts: &Opts) -> i32 {
         };
         let nkeys = rng.range(2, 6);
         let big = rng.chance(2, 3);
+        // C14 under concurrency: keys that nobody touches while the scans run must be in every scan
+        // exactly once; keys deleted before the scans began must never appear.  They sort between
+        // and around the churned keys ("rk00".."rk05").
+        let nstable = rng.range(2, 6);
+        for i in 0..nstable {
+            let _ = store.insert(format!("rk0{i}~stable").as_bytes(), &value_of(100 + i, 1, 64));
+            let _ = store.insert(format!("rj-stable{i}").as_bytes(), &value_of(200 + i, 1, 64));
+            let _ = store.insert(format!("rk0{i}~dead").as_bytes(), b"x");
+            let _ = store.delete(format!("rk0{i}~dead").as_bytes());
+        }
         let stop = Arc::new(AtomicBool::new(false));
         let bad = Arc::new(Mutex::new(None::<String>));
         let pairs = Arc::new(AtomicU64::new(0));
@@ -469,13 +479,27 @@ pub fn run_scan(opts: &Opts) -> i32 {
             let pairs = pairs.clone();
             hs.push(std::thread::spawn(move || {
                 while !stop.load(Ordering::Relaxed) {
-                    match store.range_query(b"rk", b"rk~", 100) {
+                    match store.range_query(b"rj", b"rk~", 1000) {
                         Ok(res) => {
                             pairs.fetch_add(res.len() as u64, Ordering::Relaxed);
                             let mut last: Option<Vec<u8>> = None;
+                            let stable_seen = res.iter().filter(|(k, _)| k.ends_with(b"~stable") || k.starts_with(b"rj-stable")).count() as u64;
+                            if stable_seen != 2 * nstable {
+                                *bad.lock().unwrap() = Some(format!("a-key-untouched-during-the-scan-is-missing-or-duplicated seen={stable_seen} expected={}", 2 * nstable));
+                            }
+                            if res.iter().any(|(k, _)| k.ends_with(b"~dead")) {
+                                *bad.lock().unwrap() = Some("a-key-deleted-before-the-scan-began-appeared".into());
+                            }
                             for (k, v) in res {
                                 if last.as_ref().map_or(false, |l| *l >= k) {
                                     *bad.lock().unwrap() = Some("range-result-not-strictly-ascending".into());
+                                }
+                                if k.ends_with(b"~stable") || k.starts_with(b"rj-stable") {
+                                    if parse_value(&v).is_none() {
+                                        *bad.lock().unwrap() = Some("stable-key-returned-with-bytes-never-written".into());
+                                    }
+                                    last = Some(k);
+                                    continue;
                                 }
                                 let id = std::str::from_utf8(&k[2..]).ok().and_then(|s| s.parse::<u64>().ok()).unwrap_or(999);
                                 match parse_value(&v) {
@@ -496,7 +520,19 @@ pub fn run_scan(opts: &Opts) -> i32 {
         for h in hs {
             let _ = h.join();
         }
-        let verdict = bad.lock().unwrap().clone().map_or("ok".to_string(), |b| format!("FAIL {b}"));
+        // quiescent: the ordered and the hashed index hold the same keys
+        let mut verdict = bad.lock().unwrap().clone().map_or("ok".to_string(), |b| format!("FAIL {b}"));
+        if verdict == "ok" {
+            let mut hashed = store.verif_hash_keys();
+            hashed.sort();
+            let ordered: Vec<Vec<u8>> = store.range_query(b"", &[0xff; 8], 1_000_000).map(|r| r.into_iter().map(|(k, _)| k).collect()).unwrap_or_default();
+            let snap: Vec<Vec<u8>> = store.verif_snapshot().into_iter().map(|r| r.key).collect();
+            if hashed != snap {
+                verdict = format!("FAIL ordered-and-hashed-index-disagree-at-quiescence hashed={} ordered={}", hashed.len(), snap.len());
+            } else if ordered != snap && !ttl {
+                verdict = format!("FAIL full-range-query-differs-from-the-index-at-quiescence range={} index={}", ordered.len(), snap.len());
+            }
+        }
         pairs_total += pairs.load(Ordering::Relaxed);
         out.emit3(&format!("note scan case={case} persistent={} ttl={} keys={nkeys} big={} pairs={}", persistent as u8, ttl as u8, big as u8, pairs.load(Ordering::Relaxed)), "note", &verdict);
         drop(store);
@@ -505,6 +541,170 @@ pub fn run_scan(opts: &Opts) -> i32 {
     std::fs::write(format!("{dir}/stats.json"), format!("{{\"pairs_returned_by_scans\": {pairs_total}}}")).unwrap();
     let total = out.finish();
     println!("scan: {total} cases, {pairs_total} pairs");
+    0
+}
+
+/// engine `sweep` (C11): expiry with the background sweeper running, TTL changes racing expiry,
+/// readers polling; visibility is judged against the wall clock with a margin.
+pub fn run_sweep(opts: &Opts) -> i32 {
+    use feoxdb::core::ttl_sweep::TtlConfig;
+    let dir = opts.str("out", "/verif/.build/cases/sweep");
+    let seed = opts.u64("seed", 1);
+    let n = opts.u64("n", if opts.thorough() { 48 } else { 16 });
+    std::fs::create_dir_all(format!("{dir}/dev")).unwrap();
+    let now_ns = || std::time::SystemTime::now().duration_since(std::time::UNIX_EPOCH).unwrap().as_nanos() as u64;
+    const MARGIN: u64 = 150_000_000; // 150 ms either side of the expiry instant is not judged
+    let mut handles = Vec::new();
+    for case in 0..n {
+        let dir = dir.clone();
+        handles.push(std::thread::spawn(move || {
+            let mut rng = Rng::new(seed.wrapping_mul(7919).wrapping_add(case));
+            let persistent = case % 2 == 1;
+            let path = format!("{dir}/dev/sweep_{case}.feox");
+            let _ = std::fs::remove_file(&path);
+            let open = |path: &str| {
+                let mut b = FeoxStore::builder().hash_bits(6).no_memory_limit().enable_ttl(true);
+                if persistent {
+                    b = b.device_path(path.to_string()).file_size(512 * 4096).enable_caching(case % 4 == 1);
+                }
+                b.build().map(Arc::new)
+            };
+            let store = match open(&path) {
+                Ok(s) => s,
+                Err(e) => return (format!("note sweep case={case}"), format!("FAIL cannot-open-store {e}")),
+            };
+            store.start_ttl_sweeper(Some(TtlConfig {
+                sample_size: 20,
+                expiry_threshold: 0.1,
+                max_iterations: 16,
+                max_time_per_run: Duration::from_millis(5),
+                sleep_interval: Duration::from_millis(rng.range(10, 80)),
+                enabled: true,
+            }));
+            // key -> (value, earliest expiry, latest expiry)  (0,0 = never)
+            let mut keys: Vec<(Vec<u8>, Vec<u8>, u64, u64)> = Vec::new();
+            let nk = rng.range(6, 30);
+            for i in 0..nk {
+                let k = format!("sw{i:03}").into_bytes();
+                let v = value_of(i, 1, rng.range(20, 5000) as usize);
+                let ttl = match rng.below(3) {
+                    0 => 0,
+                    1 => 1,
+                    _ => 3600,
+                };
+                let tb = now_ns();
+                let r = if ttl == 0 { store.insert(&k, &v).map(|_| ()) } else { store.insert_with_ttl(&k, &v, ttl).map(|_| ()) };
+                let ta = now_ns();
+                if r.is_err() {
+                    continue;
+                }
+                let (lo, hi) = if ttl == 0 { (0, 0) } else { (tb + ttl * 1_000_000_000, ta + ttl * 1_000_000_000) };
+                keys.push((k, v, lo, hi));
+            }
+            if persistent && rng.chance(1, 2) {
+                let _ = store.flush();
+            }
+            // TTL changes before anything expires
+            for e in keys.iter_mut() {
+                match rng.below(6) {
+                    0 => {
+                        if store.persist(&e.0).is_ok() {
+                            e.2 = 0;
+                            e.3 = 0;
+                        }
+                    }
+                    1 => {
+                        let tb = now_ns();
+                        if store.update_ttl(&e.0, 1).is_ok() {
+                            e.2 = tb + 1_000_000_000;
+                            e.3 = now_ns() + 1_000_000_000;
+                        }
+                    }
+                    2 => {
+                        let tb = now_ns();
+                        if store.update_ttl(&e.0, 3600).is_ok() {
+                            e.2 = tb + 3_600_000_000_000;
+                            e.3 = now_ns() + 3_600_000_000_000;
+                        }
+                    }
+                    _ => {}
+                }
+            }
+            let mut verdict = "ok".to_string();
+            let judge = |k: &[u8], v: &[u8], lo: u64, hi: u64, tb: u64, ta: u64, r: &Result<Vec<u8>, FeoxError>| -> Option<String> {
+                let must_live = lo == 0 || ta + MARGIN < lo;
+                let must_be_gone = hi != 0 && tb > hi + MARGIN;
+                match r {
+                    Ok(got) if must_be_gone => Some(format!("key-visible-after-its-expiry key={} late-by-ms={}", String::from_utf8_lossy(k), (tb - hi) / 1_000_000)),
+                    Ok(got) if got != v => Some(format!("wrong-value key={}", String::from_utf8_lossy(k))),
+                    Err(FeoxError::KeyNotFound) if must_live => Some(format!("unexpired-key-not-found key={} ttl-left-ms={}", String::from_utf8_lossy(k), if lo == 0 { 0 } else { (lo - ta) / 1_000_000 })),
+                    Err(e) if !matches!(e, FeoxError::KeyNotFound) => Some(format!("unexpected-error {e} key={}", String::from_utf8_lossy(k))),
+                    _ => None,
+                }
+            };
+            let start = std::time::Instant::now();
+            let mut reads = 0u64;
+            while start.elapsed() < Duration::from_millis(2400) {
+                let e = &keys[rng.below(keys.len() as u64) as usize];
+                let tb = now_ns();
+                let r = if rng.chance(1, 2) { store.get(&e.0) } else { store.get_bytes(&e.0).map(|b| b.to_vec()) };
+                let ta = now_ns();
+                reads += 1;
+                if let Some(b) = judge(&e.0, &e.1, e.2, e.3, tb, ta, &r) {
+                    verdict = format!("FAIL {b}");
+                    break;
+                }
+                if reads % 64 == 0 {
+                    std::thread::sleep(Duration::from_millis(5));
+                }
+            }
+            // everything with a 1 s TTL is now long expired: a range scan shows exactly the others
+            if verdict == "ok" {
+                let tb = now_ns();
+                if let Ok(pairs) = store.range_query(b"sw", b"sw~", 10_000) {
+                    let ta = now_ns();
+                    for e in &keys {
+                        let present = pairs.iter().any(|(k, _)| *k == e.0);
+                        let must_live = e.2 == 0 || ta + MARGIN < e.2;
+                        let must_be_gone = e.3 != 0 && tb > e.3 + MARGIN;
+                        if present && must_be_gone {
+                            verdict = format!("FAIL expired-key-in-a-range-scan key={}", String::from_utf8_lossy(&e.0));
+                        } else if !present && must_live {
+                            verdict = format!("FAIL unexpired-key-missing-from-a-range-scan key={}", String::from_utf8_lossy(&e.0));
+                        }
+                    }
+                }
+            }
+            // restart: expired keys stay gone, the others keep their value and expiry
+            if verdict == "ok" && persistent {
+                let _ = store.flush();
+                drop(store);
+                match open(&path) {
+                    Ok(s2) => {
+                        for e in &keys {
+                            let tb = now_ns();
+                            let r = s2.get(&e.0);
+                            let ta = now_ns();
+                            if let Some(b) = judge(&e.0, &e.1, e.2, e.3, tb, ta, &r) {
+                                verdict = format!("FAIL after-restart: {b}");
+                                break;
+                            }
+                        }
+                    }
+                    Err(e) => verdict = format!("FAIL reopen-failed {e}"),
+                }
+            }
+            let _ = std::fs::remove_file(&path);
+            (format!("note sweep case={case} persistent={} keys={} reads={reads}", persistent as u8, keys.len()), verdict)
+        }));
+    }
+    let mut out = Out::new(&dir, "s0");
+    for h in handles {
+        let (case, verdict) = h.join().unwrap();
+        out.emit3(&case, "note", &verdict);
+    }
+    let total = out.finish();
+    println!("sweep: {total} cases");
     0
 }
 
